@@ -25,6 +25,8 @@ class TreeMon:
         self.events = []  # expansion events since the last pull
         self.first_split_T = {}
         self.maxabs = 1.0
+        self.stride = 1
+        self.last_round = 10 ** 12
         if kind != "T_HOO":
             self.P["c1"] = (self.P["rho"] / (3 * self.P["nu"])) ** (1.0 / 8)
         # thresholds are judged per round, for the t+ values with c1*delta/t+ <= 1/2: there the code's min(1/2, .)
@@ -157,9 +159,15 @@ class TreeMon:
                 for k in self.hist:
                     self.refresh[k] = ("g", i)
             self.refresh[id(n)] = ("p", i)
-        nodes = C.reachable(self.part)
         self.maxabs = max(self.maxabs, abs(reward))
         scale = self.maxabs
+        # long-horizon runs: the O(tree) walks happen around powers of two and every `stride` rounds, the O(1) checks
+        # of the pulled cell and of the expansion decision every round
+        full = self.stride <= 1 or i % self.stride == 0 or any(abs(i - (1 << k)) <= 3 for k in range(1, 40)
+                                                                if (1 << k) <= i + 3) or i >= self.last_round
+        nodes = C.reachable(self.part) if full else [n]
+        if not full:
+            self.obs("rounds_with_pulled_cell_checks_only")
 
         # ---------------- C04: evidence held by the tree reachable from the root == the history
         tot = 0
@@ -186,7 +194,9 @@ class TreeMon:
                                ref=var)
             elif self.kind == "VHCT" and float(x.variance) != 1e-3:
                 self.V("C04:variance_of_unvisited_cell_not_floor", var=float(x.variance))
-        if self.kind == "T_HOO":
+        if not full:
+            pass
+        elif self.kind == "T_HOO":
             if self.part.get_root().get_visited_times() != self.rounds:
                 self.V("C04:root_count_differs_from_rounds", root=self.part.get_root().get_visited_times(),
                        rounds=self.rounds)
